@@ -40,6 +40,9 @@ def all_bodies(spec):
 def check(case, ctx):
     spec = specgen.normalise(case["spec"], ctx.flags, ctx)
     ref = Ref(spec)
+    if specgen.k6_excluded(ctx, ref, case["options"], single_evaluation=True):
+        ctx.done(case, False, ["excluded-K6"])
+        return
     labels = set()
     nontrivial = False
     bodies = all_bodies(spec)
